@@ -220,7 +220,7 @@ func runPemKey(ctx *core.Ctx, in input) {
 			blk = "BlkOther"
 		}
 	}
-	o := guard(callDeadline, func() ([]int64, error) {
+	o := guard("pem.DecodePEMPrivateKey", callDeadline, func() ([]int64, error) {
 		_, err := kitpem.DecodePEMPrivateKey(data)
 		return nil, err
 	})
@@ -338,7 +338,7 @@ func runSerialize(ctx *core.Ctx, in input) {
 			raw, inEnum = fmt.Sprintf("%T", rk), false
 		}
 	}
-	o := guard(callDeadline, func() ([]int64, error) {
+	o := guard("crypto.SerializeKey", callDeadline, func() ([]int64, error) {
 		_, err := kitcrypto.SerializeKey(key)
 		return nil, err
 	})
@@ -378,7 +378,7 @@ func runEdDSA(ctx *core.Ctx, in input) {
 			rawOK, pubLen = true, len(e)
 		}
 	}
-	o := guard(callDeadline, func() ([]int64, error) {
+	o := guard("crypto.VerifyPublicKey", callDeadline, func() ([]int64, error) {
 		_, err := kitcrypto.VerifyPublicKey([]byte("message"), make([]byte, 64), "EdDSA", key)
 		return nil, err
 	})
@@ -518,7 +518,7 @@ func runDecodeMD(ctx *core.Ctx, in input) {
 			seen[lk] = true
 		}
 	}
-	o := guard(callDeadline, func() ([]int64, error) {
+	o := guard("metadata.DecodeMetadata", callDeadline, func() ([]int64, error) {
 		return nil, metadata.DecodeMetadata(inp, dest)
 	})
 	emit(ctx, in, "B", fmt.Sprintf("CDecodeMetadata %s %s %s", icls, hx.CoqBool(dup), rcls), o,
@@ -581,7 +581,7 @@ var cfgFields = []string{"s", "ps", "i", "d", "t", "b", "u8", "f", "any"}
 
 func runConfigVal(ctx *core.Ctx, in input) {
 	v, cls := cfgVal(in.Shape)
-	o := guard(callDeadline, func() ([]int64, error) {
+	o := guard("config.Decode", callDeadline, func() ([]int64, error) {
 		var out cfgTarget
 		return nil, config.Decode(map[string]any{in.Dest: v}, &out)
 	})
@@ -635,7 +635,7 @@ var durShapes = []string{"duration", "int64", "named-int64", "string", "string-i
 
 func runDurHook(ctx *core.Ctx, in input) {
 	v, cls := durVal(in.Shape)
-	o := guard(callDeadline, func() ([]int64, error) {
+	o := guard("metadata.DecodeMetadata", callDeadline, func() ([]int64, error) {
 		switch in.Dest {
 		case "kit-duration":
 			var out struct {
